@@ -102,6 +102,7 @@ type Exec struct {
 	sentinels     map[*ssa.Global]*Term
 	sentinelText  map[string]string
 	constGlobals  map[*ssa.Global]Val
+	derivedFacts  []string
 	inlined       map[string]bool
 	havocked      map[string]bool
 	usedExtern    map[string]bool
